@@ -249,6 +249,71 @@ Definition inc_okb (i : inc_site) : bool :=
   | ScopeConsensus => existsb (inc_matches i) inc_table
   end.
 
+(* ------------------------------------------------------------------ concurrency / timing constructs *)
+
+(** Every channel operation, select, timer, deadline, sync / atomic use and runtime query of the consensus code must match
+    a line of [conc_table].  The justification of the one construct that IS on the block-execution path — the producer
+    goroutine of omap.SortedMap.Range and the loops consuming it — is a theorem about [range_recv]; that theorem is about
+    a producer that offers every key with a plain blocking send, which is what the table lines describe (a channel
+    made outside the goroutine, one go statement, a send and a close inside it, nothing else): a timer, a select, a sync
+    primitive or a receive in that function is a new fact without a line, and the mechanism flag
+    [c_range_blocking] (FactsCfg.range_blocking) turns false. *)
+Inductive conc_just :=
+| KJRangeProducer   (* single producer goroutine, plain blocking sends in slice order, close at the end: range_recv_blocking *)
+| KJRangeConsumer   (* `for k := range om.Range()`: receives until the channel is closed — sees exactly what the producer offers *)
+| KJQueryOnly       (* gRPC query handler (the debug_trace family): never runs inside BeginBlock / DeliverTx / EndBlock *)
+| KJInitOnly        (* package initialisation, single goroutine, before any block; the value is a build / version string or a
+                       registration counter that is the same on every node *)
+| KJErrorText.      (* reaches only the text of an error (not part of Code / Data / GasWanted / GasUsed) *)
+
+Definition conc_just_statement (j : conc_just) : Prop :=
+  match j with
+  | KJRangeProducer | KJRangeConsumer => forall (delays keys : list Z), range_recv None delays keys = keys
+  | KJQueryOnly | KJInitOnly | KJErrorText => True
+  end.
+
+Theorem conc_just_proved : forall j, conc_just_statement j.
+Proof. destruct j; simpl; auto; intros; apply range_recv_blocking. Qed.
+
+Record conc_entry := mk_centry {
+  ce_pkg : string;
+  ce_fn : string;          (* "" = any function of the package (consumers move between helpers when code is refactored) *)
+  ce_kind : conc_kind; ce_what : string; ce_in_go : bool; ce_in_select : bool; ce_just : conc_just }.
+
+Definition conc_table : list conc_entry := [
+  mk_centry "x/common/omap" "SortedMap.Range" (CkMakeChan false) "K" false false KJRangeProducer;
+  (* a buffered channel is a FIFO queue in front of the same blocking send: the consumer still receives every key, in order,
+     and the buffered keys after the close ([range_recv] does not depend on the capacity) *)
+  mk_centry "x/common/omap" "SortedMap.Range" (CkMakeChan true) "K" false false KJRangeProducer;
+  mk_centry "x/common/omap" "SortedMap.Range" CkGo "go" false false KJRangeProducer;
+  mk_centry "x/common/omap" "SortedMap.Range" CkSend "_" true false KJRangeProducer;
+  mk_centry "x/common/omap" "SortedMap.Range" CkClose "_" true false KJRangeProducer;
+  mk_centry "x/oracle/keeper" "" CkRangeChan "_.Range()" false false KJRangeConsumer;
+  mk_centry "x/evm/keeper" "Keeper.TraceEthTxMsg" CkDeadline "context.WithTimeout" false false KJQueryOnly;
+  mk_centry "x/evm/keeper" "Keeper.TraceEthTxMsg" CkGo "go" false false KJQueryOnly;
+  mk_centry "x/evm/keeper" "Keeper.TraceEthTxMsg" CkRecv "_.Done()" true false KJQueryOnly;
+  mk_centry "x/evm/keeper" "Keeper.TraceEthTxMsg" CkDeadline "Context.Done" true false KJQueryOnly;
+  mk_centry "x/evm/keeper" "Keeper.TraceEthTxMsg" CkDeadline "Context.Err" true false KJQueryOnly;
+  mk_centry "app/appconst" "init" CkRuntime "runtime.Version" false false KJInitOnly;
+  mk_centry "app/appconst" "init" CkRuntime "runtime.GOARCH" false false KJInitOnly;
+  mk_centry "x/oracle/types" "registerError" CkSync "atomic.AddUint32" false false KJInitOnly;
+  mk_centry "x/common" "TryCatch" CkRuntime "debug.Stack" false false KJErrorText
+].
+
+Definition conc_matches (s : conc_site) (e : conc_entry) : bool :=
+  String.eqb (k_pkg s) (ce_pkg e) && (String.eqb (ce_fn e) "" || String.eqb (k_fn s) (ce_fn e)) &&
+  conc_kind_eqb (k_kind s) (ce_kind e) && String.eqb (k_what s) (ce_what e) &&
+  Bool.eqb (k_in_go s) (ce_in_go e) && Bool.eqb (k_in_select s) (ce_in_select e).
+
+Definition conc_okb (s : conc_site) : bool :=
+  match k_scope s with
+  | ScopeTooling => true
+  | ScopeConsensus => existsb (conc_matches s) conc_table
+  end.
+
+Theorem conc_table_justified : Forall (fun e => conc_just_statement (ce_just e)) conc_table.
+Proof. apply Forall_forall. intros e _. apply conc_just_proved. Qed.
+
 (* ------------------------------------------------------------------ process-local mutable state *)
 
 (** Consensus results must be a function of the store and the block alone.  A package-level map that no function writes
